@@ -6,7 +6,7 @@ import json
 E1 = "explicit-state model checking of the real client (BFS to closure over a finite operation alphabet; reference-model conformance checked on every transition)"
 E1M = "explicit-state model checking: every reachable table content of a finite item universe (closure) x an exhaustive request menu, each executed on the real client against the reference model"
 E2 = "bounded-exhaustive enumeration (small-scope model checking) of inputs/programs on the real lexer/parser/evaluator/mappers against a reference semantics"
-E3 = "stateless model checking of thread interleavings of the real client under a controlled scheduler (iterative preemption bounding), lockset race check and brute-force linearizability"
+E3 = "stateless model checking of thread interleavings of the real client under a controlled scheduler (iterative preemption bounding); per execution: lockset and happens-before race checks, brute-force linearizability"
 
 CHECKS = {
     "C01": dict(engine="E1", technique=E1,
@@ -15,15 +15,15 @@ CHECKS = {
                 ref="DESIGN.md 3/C01"),
     "C03": dict(engine="E1", technique=E1,
                 text="every history of index-affecting writes over the alphabet (closure) keeps every secondary index equal to the sparse view of the base table, on both SDK adapters and five index configurations",
-                note="bounded alphabet (2-3 keys, two index key values; GSI hash / GSI hash+range / GSI inverted (range key, hash key) / GSI on the table range key next to a GSI on g / LSI; UpdateTable create-delete of a second GSI); trusted: reference model",
+                note="bounded alphabet (2-3 keys, two index key values; GSI hash / GSI hash+range / GSI inverted (range key, hash key) / GSI on the table range key next to a GSI on g / two LSIs; UpdateTable create-delete of a second GSI); trusted: reference model",
                 ref="DESIGN.md 3/C03"),
     "C05": dict(engine="E1", technique=E1,
                 text="in every reachable combination of target and bystander items, every conditional Put/Update/Delete of the menu succeeds iff the reference evaluation of the condition on the target item is true, and a refused write changes nothing observable",
-                note="bounded alphabet (2-3 keys, 6-8 conditions; DeleteItem with either return option alone; key schemas H(S), HR(S,N) with 19-digit neighbour sort keys, HR(S,S) with keys sharing the partition); ReturnValuesOnConditionCheckFailure only exercised through SDK v2 (the v1 request type has no such field)",
+                note="bounded alphabet (2-3 keys, 7-9 conditions incl. one with two name placeholders; DeleteItem with either return option alone; key schemas H(S), HR(S,N) with 19-digit neighbour sort keys, HR(S,S) with keys sharing the partition); ReturnValuesOnConditionCheckFailure only exercised through SDK v2 (the v1 request type has no such field)",
                 ref="DESIGN.md 3/C05"),
     "C08": dict(engine="E1", technique=E1,
                 text="in every reachable state, every request of the failing-request menu that the implementation rejects leaves the complete observation equal to the unchanged model, and the successor state keeps conforming in all further histories",
-                note="three systems: one GSI, two GSIs (a write ill-typed for either), a GSI created and deleted around items that are ill-typed for it; the fault space is the menu of ~70 failing request kinds incl. batches of two and three and multi-change UpdateTable (the library has no other failure source); requests the implementation accepts are outside this property",
+                note="three systems: one GSI, two GSIs (a write ill-typed for either), a GSI created and deleted around items that are ill-typed for it; the fault space is the menu of ~80 failing request kinds incl. batches of two and three, multi-change UpdateTable and PutItem/DeleteItem with a ReturnValues setting they do not accept (the library has no other failure source); requests the implementation accepts are outside this property",
                 ref="DESIGN.md 3/C08"),
     "C13": dict(engine="E1", technique="bounded-exhaustive enumeration of all ordered pairs of distinct keys over separator-carrying component alphabets (each pair a fixed history on the real client against the reference model), a bulk pass over every key of a generated component alphabet in one table, plus explicit-state BFS over key-changing updates and malformed-key requests (single and batch)",
                 text="no two distinct keys of the alphabets collide, every malformed key is rejected with a validation error and no change, and no update leaves an item whose key attributes differ from its addressing key - on everything enumerated, with the three recorded findings",
@@ -43,14 +43,14 @@ CHECKS = {
                 ref="DESIGN.md 3/C19"),
     "C02": dict(engine="E1", technique=E1M,
                 text="in every table content over the item universe (all subsets, reached by closure) every Query and Scan of the exhaustive menu returns exactly the reference selection in sort-key order (ties free), on base table, GSI and LSI, both directions, both SDK adapters",
-                note="item universes of 5-6 (quick) / 7-8 (thorough) items per configuration incl. a key-only item, each item also written by UpdateItem, rejected index-key writes in the alphabet, an index on the table's own key attributes; value alphabets drawn from the universe plus absent values; number sort keys are ordered as text (recorded finding)",
+                note="item universes of 5-6 (quick) / 7-8 (thorough) items per configuration incl. a key-only item and a sort key starting beyond U+FFFF, each item also written by UpdateItem, rejected index-key writes in the alphabet, an index on the table's own key attributes; value alphabets drawn from the universe plus absent values; number sort keys are ordered as text (recorded finding)",
                 ref="DESIGN.md 3/C02"),
     "C04": dict(engine="E1", technique=E1M,
                 text="in every state of the C02 space, for every query of the menu and every Limit from 1 to |result|+1 the concatenated pages equal the unpaginated result of the same client, within the page budget; and for every page boundary of every walk of the reduced menu, deleting the boundary item does not lose any remaining item",
                 note="same universes as C02; the boundary-deletion pass rebuilds a fresh client per boundary (replay of the history)",
                 ref="DESIGN.md 3/C04"),
     "C17": dict(engine="E1", technique="explicit-state model checking of the product of the two real clients (BFS to closure; oracle = agreement of the normalised responses of v1 and v2 on every transition and every observation read)",
-                text="every history over the union of the C01/C03/C05/C08/C15/C18/C19 alphabets, invalid requests under failure toggles, every C10 value tree and the query/pagination menu produces identical normalised responses through the v1 and the v2 client at every step",
+                text="every history over the union of the C01/C03/C05/C08/C15/C18/C19 alphabets, invalid requests under failure toggles, every C10 value tree and the query/pagination menu produces identical normalised responses through the v1 and the v2 client at every step; a stored value tree is also read by a filtered Scan/Query, two updates and a conditional delete",
                 note="InvalidParameter (SDK v1 client-side validation) and ValidationException are one class; ProjectionType and other fields outside the normalised response are not compared; ReturnValuesOnConditionCheckFailure is not expressible in the v1 request types",
                 ref="DESIGN.md 3/C17"),
     "C06": dict(engine="E2", technique=E2,
@@ -71,7 +71,7 @@ CHECKS = {
                 ref="DESIGN.md 3/C10"),
     "C12": dict(engine="E2", technique=E2,
                 text="every ordered pair of numerals of the alphabet under comparison, membership, arithmetic, set operations and as hash/range key, every 3-subset of number sort keys and pair of binary sort keys for ordering, and an untouched 38-digit attribute across every arithmetic update, judged by exact decimal arithmetic",
-                note="29 (44) numerals chosen to separate text, double and decimal semantics; the float64 and key-text findings are attributed only when the answer equals that defect model's prediction",
+                note="29 (44) numerals chosen; a copy of the number in the same expression (SET b = a ADD a :n) must be the pre-update value; to separate text, double and decimal semantics; the float64 and key-text findings are attributed only when the answer equals that defect model's prediction",
                 ref="DESIGN.md 3/C12"),
     "C14": dict(engine="E2", technique=E2 + " (every mutable location of every SDK value tree, one mutation per fresh client)",
                 text="for every value tree and every mutable location of its SDK v1 / v2 representation, in every input and output scenario (items, update values, batch requests, request keys, returned items, LastEvaluatedKey, the ConditionalCheckFailed item), mutating that location after the call returns leaves every later read unchanged, and returned structures are not changed by later writes",
@@ -79,7 +79,7 @@ CHECKS = {
                 ref="DESIGN.md 3/C14"),
     "C16": dict(engine="E2", technique=E2 + " against the rule table of the statement",
                 text="every reserved word x letter case x bare-name position (39, incl. positions behind a decided outcome) is rejected and benign/aliased names are not; every supplied-vs-used placeholder subset relation, every key-condition shape, every batch size 1..27 and malformed write request is judged by the rule table, in both SDK clients",
-                note="573 words pinned from the pinned commit; placeholder universe {#a,#ab,#b} x {:a,:ab,:b}, with and without any expression; two recorded findings (placeholder validation by substring, key-condition shape not validated)",
+                note="573 words pinned from the pinned commit; malformed placeholder keys (non-ASCII letters and digits, bare and doubled prefix) next to used ones and in a projection expression; placeholder universe {#a,#ab,#b} x {:a,:ab,:b}, with and without any expression; two recorded findings (placeholder validation by substring, key-condition shape not validated)",
                 ref="DESIGN.md 3/C16"),
     "C20": dict(engine="E2", technique=E2 + " over registration sets x requests x activation configurations",
                 text="for every set of up to two registrations, every request and every activation configuration, exactly the expected callback fires and its verdict/mutation is used; unregistered conditions fall back to the built-in result, unregistered updates fail with the unsupported-feature error and leave the item unchanged; nothing fires when the native interpreter is not active",
@@ -87,7 +87,7 @@ CHECKS = {
                 ref="DESIGN.md 3/C20"),
     "C11": dict(engine="E3", technique=E3 + "; supplemented by a free-running race-detector pass over the same scenario bodies",
                 text="every schedule with at most 1 (thorough: 2) preemptions of every pair of calls of the 20/23-call menu (data, batch, table management, every test helper) from three initial states, of Query/Scan through a secondary index against every call from an indexed state, of the named N-thread scenarios and of two-call threads (at most 2 preemptions), on both SDK clients: no deadlock, no panic, lockset race freedom, and an outcome equal to that of some sequential order",
-                note="scheduling points: Lock/Unlock, every access to a Client field or core.Table/index object in the client packages, every statement of core/table.go and core/index.go (inserted at build time through go build -overlay); sequentially consistent interleavings only; the lockset rule distinguishes shared (RLock) from exclusive holds; 2-3 threads; batch calls are decomposed into their requests for the sequential reference; the race-detector pass (uninstrumented -race build, 40/400 repetitions per scenario) is sampling and only guards the completeness of the marked accesses",
+                note="scheduling points: Lock/Unlock, every access to a Client field or core.Table/index object in the client packages, every statement of core/table.go and core/index.go (inserted at build time through go build -overlay); sequentially consistent interleavings only; the lockset rule distinguishes shared (RLock) from exclusive holds; 2-3 threads; batch calls are decomposed into their requests for the sequential reference; a vector-clock happens-before check over all recorded accesses incl. silent Touch events on maps and slices in every library package; the race-detector pass (uninstrumented -race build, 40/400 repetitions per scenario) is sampling and only guards the completeness of the marked accesses",
                 ref="DESIGN.md 1.7, 3/C11"),
 }
 
